@@ -124,6 +124,21 @@ class Marginals:
             z3.And(0 <= k, k < to_z3(n1)), to_real(mc.f((k,))) == rsum(lambda t: to_real(D0.f((t, k))) * s, n0))
 
 
+@contract
+class EventCount:
+    qualname = 'lemma:' + MGDS + '.event_count'
+    case = 'total expected count'
+    properties = ('C11',)
+
+    def lemma(c):
+        o, D0, s = mk_dataset(c, MGDS)
+        ec = c.I.getattr(o, 'event_count')
+        n0, n1 = D0.shape
+        flat = lambda t: to_real(_flat(D0, t)) * s
+        yield 'event_count == sum over all cells and magnitude bins of stored rate x current factor', \
+            to_real(ec) == rsum(flat, _size(D0))
+
+
 class _ScaleToTestDate:
     qualname = GF + '.scale_to_test_date'
     properties = ('C11',)
